@@ -279,7 +279,7 @@ def _hmf_data(rng, nonneg):
 class HMFIteration(NumericJob):
     name = "hmf_iteration"
     target = "pydl.pydlspec2d.spec1d:HMF.solve, HMF.iterate, HMF.astep, HMF.gstep, HMF.reorder, HMF.normbase"
-    bound = ("6..14 spectra of 12..30 pixels, rank-3 signal plus noise, 8% masked pixels (no empty column), K = 1..3, seeds 0..999, epsilon none / 0.5, "
+    bound = ("6..14 spectra of 12..30 pixels, rank-3 signal plus noise, 8% masked pixels (no empty column), K = 1..3, seeds 0 and 1..999 (the global generator re-seeded differently before every run), epsilon none / 0.5, "
              "default mode with 1..4 iterations, non-negative mode with 16 iterations")
     KINDS = ("astep_is_the_exact_optimum_given_g", "gstep_is_the_exact_optimum_given_a", "chi_square_never_increases_over_iterations", "components_have_unit_rms",
              "fixed_seed_gives_identical_results", "nonnegative_mode_keeps_both_factors_non_negative", "callers_arrays_not_modified_in_default_mode")
@@ -289,7 +289,7 @@ class HMFIteration(NumericJob):
         for rep in range(n):
             nonneg = rng.random() < 0.3
             N, Mp, K, s, w = _hmf_data(rng, nonneg)
-            yield dict(s=s, w=w, K=K, seed=rng.randint(0, 999), eps=rng.choice([None, None, 0.5]), nonneg=nonneg, g0=_rand(rng, (K, Mp), 0.2, 2.0), a0=_rand(rng, (N, K), 0.2, 2.0),
+            yield dict(s=s, w=w, K=K, seed=rng.choice([0, 0, rng.randint(1, 999)]), eps=rng.choice([None, None, 0.5]), nonneg=nonneg, g0=_rand(rng, (K, Mp), 0.2, 2.0), a0=_rand(rng, (N, K), 0.2, 2.0),
                        inp=dict(rep=rep, N=N, M=Mp, K=K, nonnegative=nonneg))
 
     def _check(self, c):
@@ -328,7 +328,8 @@ class HMFIteration(NumericJob):
                     bad.append(("gstep_is_the_exact_optimum_given_a", "chi-square %g -> %g, largest gradient component %g" % (b1, chi2(h.a, g1), np.abs(grad_g).max())))
             runs = []
             its = (16,) if nonneg else (1, 2, 3, 4)
-            for n_iter in its + (its[-1],):
+            for rno, n_iter in enumerate(its + (its[-1],)):
+                np.random.seed(1000 + rno)          # the caller's global generator is in a different state before every run: a fixed seed must override it
                 s_in, w_in = s.copy(), w.copy()
                 h = HMF(s_in, w_in, K=K, n_iter=n_iter, seed=seed, nonnegative=nonneg, epsilon=eps)
                 out = h.solve()
